@@ -12,7 +12,7 @@ func init() {
 		ID: "C09",
 		Explanation: "Structural necessary conditions of C09: (R09.1) a string produced by a Unicode case mapping (strings.ToLower/ToUpper) is used for anything but a comparison with its operand only if the operand is provably ASCII — covered by an all-elements guard loop, produced by bech32 itself, validated by validPluginName, or a parameter all of whose callers pass such values; " +
 			"(R09.2) no index computed on one string slices another unless the other is a length-preserving (ASCII-guarded) image of it — the slice obligations of internal/bech32 are discharged by the bounds engine; (R09.3) Decode's guards: mixed case, separator position, every data symbol in the charset, checksum verified, 5-to-8 regrouping without padding, both padding rejections in convertBits; " +
-			"(R09.4) exact HRP and 32-byte length in the native parsers; (R09.5) charset, generator, checksum length and polymod constants equal BIP-173; (R09.6) plugin names validated on every successful parse/encode; (R09.7) String methods print the table's HRPs.",
+			"(R09.4) exact HRP and 32-byte length in the native parsers; (R09.5) charset, generator, checksum length and polymod constants equal BIP-173; (R09.6) plugin names validated on every successful parse/encode; (R09.7) String methods print the table's HRPs; (R09.8) no parser returns zero values with an error that a merge can leave nil (a refusal reported as success).",
 		NotDecided:  "polymod/convertBits arithmetic and hence the <=4-substitution detection guarantee as a computation; 're-encodes to itself' as a round trip over all strings.",
 		Assumptions: []string{"strings.ToLower/ToUpper map ASCII to ASCII and preserve length on ASCII input", "BIP-173 constants transcribed correctly"},
 		Technique:   "static analysis: provenance of case-mapped strings with loop-guard recognition, bounds obligations via difference constraints, dominance guards, constants compared with the specification table",
@@ -325,6 +325,10 @@ func runC09(p *Program, r *Result) {
 			r.Check(got == want, sub, "recipe:"+site.Key, pos, got, "got  "+got+"\n   want "+want)
 		}
 	}
+
+	// ---- R09.8
+	r.Rule("R09.8", "a string the parsers refuse is reported as an error (= R13.9 for the key-string packages)", 1)
+	checkNoSilentRefusal(p, r, []string{pkgAge, pkgPlugin, pkgBech32, pkgSSH})
 
 	// ---- R09.6
 	r.Rule("R09.6", "plugin names are validated on every successful parse and encode", 4)
